@@ -96,7 +96,7 @@ func genC06(t *rapid.T) c06Case {
 			fromThing := rapid.Bool().Draw(t, l+"_side")
 			op := kit.Op{}
 			self, other := c06IDs["things"], c06IDs["targets"]
-			if rapid.IntRange(0, 5).Draw(t, l+"_ownedLink") == 0 && len(m.Ents["owned"]) > 0 {
+			if rapid.IntRange(0, 3).Draw(t, l+"_ownedLink") == 0 && len(m.Ents["owned"]) > 0 {
 				// the ref-counted collection of the store that has no plain collection
 				op := kit.Op{Store: "owned", Field: "orc"}
 				self, other := c06IDs["owned"], c06IDs["targets"]
@@ -104,6 +104,24 @@ func genC06(t *rapid.T) c06Case {
 					op.Store, op.Field = "targets", "orcb"
 					self, other = other, self
 				}
+				// mostly between entities that exist
+				existing := func(store string, ids []string) []string {
+					var out []string
+					for _, id := range ids {
+						if _, ok := m.Ents[store][id]; ok {
+							out = append(out, id)
+						}
+					}
+					if len(out) == 0 || rapid.IntRange(0, 9).Draw(t, l+"_oany_"+store) == 0 {
+						return ids
+					}
+					return out
+				}
+				selfStore, otherStore := "owned", "targets"
+				if !fromThing {
+					selfStore, otherStore = otherStore, selfStore
+				}
+				self, other = existing(selfStore, self), existing(otherStore, other)
 				op.ID = self[rapid.IntRange(0, len(self)-1).Draw(t, l+"_olid")]
 				op.Keys = []string{other[rapid.IntRange(0, len(other)-1).Draw(t, l+"_okey")]}
 				op.Kind = []string{"rcinc", "rcinc", "rcdec", "rcset"}[rapid.IntRange(0, 3).Draw(t, l+"_orck")]
@@ -157,6 +175,16 @@ func genC06(t *rapid.T) c06Case {
 		}
 		return kit.GenEntOpM(t, l, store, u, m)
 	})
+	if rapid.IntRange(0, 2).Draw(t, "deleteRcOnlyEntity") == 0 {
+		// delete an entity of the store that has ref-counted links only, while it is linked
+		m0 := replayModel(h)
+		for _, id := range c06IDs["owned"] {
+			if _, ok := m0.Ents["owned"][id]; ok && len(m0.LinkedFrom("owned.orc", false, id)) > 0 {
+				h.Txs = append(h.Txs, kit.TxSpec{Ops: []kit.Op{{Kind: "delete", Store: "owned", ID: id}}})
+				break
+			}
+		}
+	}
 	if rapid.IntRange(0, 2).Draw(t, "systemDeleteOfReferenced") == 0 {
 		// a delete of an entity that is still referenced through a restrict wiring, issued from a system context:
 		// elevated contexts lift the system-entity protection, not referential integrity
